@@ -109,7 +109,7 @@ fn log2_ceil(x: usize) -> usize { if x <= 1 { 0 } else { (usize::BITS - (x - 1).
 pub fn generate(tier: &str, seed: u64) -> Vec<Rec> {
     let mut rng = Rng::new(seed);
     let mut out = Vec::new();
-    let reps = if tier == "thorough" { 4000 } else { 700 };
+    let reps = if tier == "thorough" { 4000 } else { 560 };
     for it in 0..reps {
         let code = match it % 10 { 0..=4 => 1001, 5 | 6 => 1002, 7 | 8 => 1003, _ => 1004 };
         let be = rng.range(1, 4) as i128;
